@@ -26,7 +26,7 @@ WALL_CAP = {'quick': 600, 'thorough': 3000}
 
 OBJ_TAMPERS = ['out_value', 'out_script', 'add_output', 'remove_output', 'outpoint_n', 'outpoint_hash', 'sequence',
                'locktime', 'version', 'in_amount', 'sig_flip', 'sig_outsider', 'sig_other_digest', 'drop_sig',
-               'drop_sig_pad']
+               'drop_sig_pad', 'version_bytes', 'version_int']
 BYTE_TAMPERS = ['out_value', 'out_script', 'add_output', 'remove_output', 'outpoint_n', 'outpoint_hash', 'sequence',
                 'locktime', 'version', 'in_amount', 'sig_flip', 'drop_sig', 'drop_sig_pad']
 
@@ -106,6 +106,12 @@ def _tamper_object(t, plan, tam, amounts):
         v = (t.version_int ^ 1) or 3
         t.version_int = v
         t.version = v.to_bytes(4, 'big')
+    elif op == 'version_bytes':
+        # the object keeps the version twice; raw() serialises the bytes attribute
+        t.version = ((t.version_int ^ 1) or 3).to_bytes(4, 'big')
+    elif op == 'version_int':
+        # ... and this one alone leaves the serialised transaction as it was signed
+        t.version_int = (t.version_int ^ 1) or 3
     elif op == 'in_amount':
         if li.witness_type == 'legacy':
             return False
@@ -368,6 +374,10 @@ def check(ctx, case):
             got, exc = False, e
     if ref_ok:
         ctx.klass('tamper.noop_for_reference')
+        if tam['op'] == 'version_int' and not got:
+            ctx.disc('complete.verify_false:unchanged_bytes', 'verify() False after setting only version_int: the '
+                     'transaction still serialises to the signed bytes, which the consensus interpreter accepts (%s)'
+                     % kinds, case)
         return
     ctx.klass('tamper.effective.' + tam['op'])
     if got:
